@@ -940,7 +940,7 @@ Section WF.
           injection Hl' as <-. exists a, es'. split; [exact Efind|]. split; [|exact Einst].
           eapply feeds_mono; [exact Hm3 | exact Hfeeds].
     - (* IndOK *)
-      intros id e0. rewrite Hind2, (Hind1 id e0). split.
+      unfold IndOK. cbn [e_tab e_ind]. intros id e0. rewrite Hind2, (Hind1 id e0). split.
       + intros [[Hp [a' [k [q [Hd [Ha' [Hk [Hq [Hi He]]]]]]]]] | [Hp [k [q [Hk [Hq [Hi He]]]]]]].
         * split; [exact Hp|]. exists a', k, q. split; [apply Hdom3; auto|]. split; [exact Ha'|].
           split; [exact Hk|]. split; [exact Hq|]. split; [exact Hi|]. apply Hm3, He.
